@@ -1,3 +1,602 @@
 (** C12 — proofs about the TickScheduler model. *)
+From Coq Require Import Sorting.Sorted.
 From Akita Require Import Lib.Base C42.Model C42.Proofs C12.Model.
 Local Open Scope N_scope.
+
+(** ------------------------------------------------------------------ *)
+(** list helpers *)
+
+Lemma sorted_head_min x r : StronglySorted N.lt (x :: r) -> list_min (x :: r) = Some x.
+Proof.
+  revert x. induction r as [|y r IH]; intros x Hs; [reflexivity|].
+  inversion Hs as [|? ? Hs' Hall]; subst.
+  change (list_min (x :: y :: r)) with
+    (match list_min (y :: r) with None => Some x | Some m => Some (if x <=? m then x else m) end).
+  rewrite (IH y Hs'). inversion Hall; subst.
+  destruct (x <=? y) eqn:E; [reflexivity|lia].
+Qed.
+
+Lemma remove_first_head x r : remove_first x (x :: r) = r.
+Proof. cbn [remove_first]. rewrite N.eqb_refl. reflexivity. Qed.
+
+Lemma sorted_app_one l t : StronglySorted N.lt l -> Forall (fun u => u < t) l ->
+  StronglySorted N.lt (l ++ [t]).
+Proof.
+  induction l as [|x l IH]; intros Hs Hf; cbn [app].
+  - constructor; constructor.
+  - inversion Hs as [|? ? Hs' Hall]; subst. inversion Hf as [|? ? Hx Hf']; subst.
+    constructor; [apply IH; assumption|].
+    apply Forall_app. split; [assumption|constructor; [assumption|constructor]].
+Qed.
+
+Lemma sorted_in_lower_is_head l u : StronglySorted N.lt l -> In u l ->
+  Forall (fun x => u <= x) l -> exists r, l = u :: r.
+Proof.
+  intros Hs Hin Hf. destruct l as [|x r]; [destruct Hin|].
+  destruct Hin as [->|Hin]; [eauto|].
+  inversion Hs as [|? ? _ Hall]; subst. inversion Hf as [|? ? Hux _]; subst.
+  rewrite Forall_forall in Hall. specialize (Hall u Hin). lia.
+Qed.
+
+Lemma forallb_le_Forall t l : forallb (fun u => t <=? u) l = true -> Forall (fun u => t <= u) l.
+Proof.
+  intro H. rewrite forallb_forall in H. apply Forall_forall. intros x Hx.
+  specialize (H x Hx). lia.
+Qed.
+
+(** ------------------------------------------------------------------ *)
+Section WithFreq.
+Variable f p : N.
+Hypothesis Hf : in_range f.
+Hypothesis Hp : period f = Some p.
+
+Let Hp1 : 1 <= p.
+Proof.
+  destruct (period_in_range f Hf) as [p' [Hp' [H1 _]]]. rewrite Hp in Hp'.
+  inversion Hp'; subst. exact H1.
+Qed.
+
+Notation lmgt := (least_multiple_gt p).
+Notation lmge := (least_multiple_ge p).
+
+Lemma lmge_le_lmgt t : lmge t <= lmgt t.
+Proof.
+  destruct (lmge_spec p t Hp1) as [_ [_ [_ Hleast]]].
+  destruct (lmgt_spec p t Hp1) as [Hm [Hgt _]].
+  apply Hleast; [exact Hm|lia].
+Qed.
+
+Lemma lmgt_mono a b : a <= b -> lmgt a <= lmgt b.
+Proof.
+  intro Hab.
+  destruct (lmgt_spec p a Hp1) as [_ [_ [_ Hleast]]].
+  destruct (lmgt_spec p b Hp1) as [Hm [Hgt _]].
+  apply Hleast; [exact Hm|lia].
+Qed.
+
+Lemma multiple_gt_ge_lmgt t m : m mod p = 0 -> t < m -> lmgt t <= m.
+Proof. intros. destruct (lmgt_spec p t Hp1) as [_ [_ [_ Hleast]]]. auto. Qed.
+
+Lemma multiple_ge_ge_lmge t m : m mod p = 0 -> t <= m -> lmge t <= m.
+Proof. intros. destruct (lmge_spec p t Hp1) as [_ [_ [_ Hleast]]]. auto. Qed.
+
+Lemma fits_spec s : fits f s = true <-> lmgt (now s) < two64.
+Proof. unfold fits. rewrite Hp. apply N.ltb_lt. Qed.
+
+Lemma next_tick_fit t : lmgt t < two64 -> next_tick f t = Some (lmgt t).
+Proof.
+  intro H. apply next_tick_exact; auto.
+  destruct (lmgt_spec p t Hp1) as [_ [Hgt _]]. lia.
+Qed.
+
+Lemma this_tick_fit t : lmgt t < two64 -> this_tick f t = Some (lmge t).
+Proof.
+  intro H. pose proof (lmge_le_lmgt t).
+  destruct (lmgt_spec p t Hp1) as [_ [Hgt _]].
+  apply this_tick_exact; auto; lia.
+Qed.
+
+(** the invariant of the dedup guard *)
+Record Inv (s : st) : Prop := {
+  inv_fit : lmgt (now s) < two64;
+  inv_pend : Forall (fun t => now s <= t /\ t mod p = 0) (pend s);
+  inv_sorted : StronglySorted N.lt (pend s);
+  inv_nohas : has s = false -> pend s = [];
+  inv_mul : has s = true -> next s mod p = 0;
+  inv_le : has s = true -> next s <= lmgt (now s);
+  inv_bound : Forall (fun t => t <= next s) (pend s);
+  inv_in : has s = true -> now s < next s -> In (next s) (pend s);
+  inv_inh : inh s = true ->
+            has s = true /\ now s <= next s /\ Forall (fun t => now s < t) (pend s) }.
+
+Lemma inv_init : Inv init.
+Proof.
+  constructor; cbn; try (constructor; fail); try discriminate; auto.
+  destruct (lmgt_spec p 0 Hp1) as [_ [_ [Hle _]]].
+  destruct (period_in_range f Hf) as [p' [Hp' [_ Hpe]]]. rewrite Hp in Hp'.
+  assert (Hpe' : p = ps_per_second / f) by congruence.
+  assert (p <= ps_per_second).
+  { rewrite Hpe'. apply N.div_le_upper_bound; [unfold in_range in Hf; lia|].
+    unfold in_range in Hf. nia. }
+  unfold ps_per_second, two64 in *. lia.
+Qed.
+
+(** scheduling a tick at an edge [t] beyond [next], not before [now] *)
+Lemma inv_sched s t :
+  Inv s -> t mod p = 0 -> now s <= t -> t <= lmgt (now s) ->
+  (has s = true -> next s < t) ->
+  exists s', sched_at s t = Some s' /\ Inv s' /\
+             has s' = true /\ next s' = t /\ pend s' = pend s ++ [t] /\
+             now s' = now s /\ inh s' = inh s.
+Proof.
+  intros HI Hm Hge Hle Hnx. unfold sched_at.
+  destruct (t <? now s) eqn:E; [lia|]. eexists. split; [reflexivity|].
+  assert (Hlt : Forall (fun u => u < t) (pend s)).
+  { destruct (has s) eqn:Eh.
+    - specialize (Hnx eq_refl). pose proof (inv_bound s HI) as Hb.
+      rewrite Forall_forall in *. intros x Hx. specialize (Hb x Hx). lia.
+    - rewrite (inv_nohas s HI Eh). constructor. }
+  split; [|cbn; auto 10].
+  constructor; cbn [has next pend now inh].
+  - exact (inv_fit s HI).
+  - apply Forall_app. split; [exact (inv_pend s HI)|constructor; [auto|constructor]].
+  - apply sorted_app_one; [exact (inv_sorted s HI)|exact Hlt].
+  - discriminate.
+  - auto.
+  - auto.
+  - apply Forall_app. split.
+    + eapply Forall_impl; [|exact Hlt]. cbn. intros; lia.
+    + constructor; [lia|constructor].
+  - intros _ _. apply in_or_app. right. left. reflexivity.
+  - intro Hi. destruct (inv_inh s HI Hi) as [Hh [Hn Hall]].
+    split; [reflexivity|]. specialize (Hnx Hh). split; [lia|].
+    apply Forall_app. split; [exact Hall|constructor; [lia|constructor]].
+Qed.
+
+(** a call either leaves the state alone or schedules one tick beyond [next] *)
+Definition grows (s s' : st) : Prop :=
+  s' = s \/ (has s' = true /\ (has s = true -> next s < next s') /\
+             pend s' = pend s ++ [next s']).
+
+(** TickLater never panics inside the representable range, keeps the invariant,
+    and leaves a tick pending at the next edge. *)
+Lemma tick_later_ok s : Inv s ->
+  exists s' o, tick_later f s = Some (s', o) /\ Inv s' /\
+               now s' = now s /\ inh s' = inh s /\ has s' = true /\
+               In (lmgt (now s)) (pend s') /\
+               (exists ext, pend s' = pend s ++ ext) /\
+               (o = ODrop \/ o = OSched (lmgt (now s))) /\ grows s s'.
+Proof.
+  intro HI. pose proof (inv_fit s HI) as Hfit.
+  destruct (lmgt_spec p (now s) Hp1) as [Hm [Hgt _]].
+  unfold tick_later, tick_later_g. rewrite (next_tick_fit _ Hfit).
+  destruct (has s && guard_hit GGe (next s) (lmgt (now s))) eqn:G.
+  - apply andb_true_iff in G. destruct G as [Hh G]. cbn [guard_hit] in G.
+    assert (Hin : In (lmgt (now s)) (pend s)).
+    { pose proof (inv_le s HI Hh) as Hle. assert (E : next s = lmgt (now s)) by lia.
+      rewrite <- E. apply (inv_in s HI Hh). lia. }
+    exists s, ODrop.
+    split; [reflexivity|]. split; [exact HI|]. split; [reflexivity|]. split; [reflexivity|].
+    split; [exact Hh|]. split; [exact Hin|]. split; [|split; [left; reflexivity|left; reflexivity]].
+    exists []. rewrite app_nil_r. reflexivity.
+  - destruct (inv_sched s (lmgt (now s)) HI Hm) as [s' [Hs [HI' [Hh' [Hn' [Hp' [Hnow' Hinh']]]]]]]; try lia.
+    { intro Hh. rewrite Hh in G. cbn [andb guard_hit] in G. lia. }
+    rewrite Hs. exists s', (OSched (lmgt (now s))).
+    split; [reflexivity|]. split; [exact HI'|]. split; [exact Hnow'|]. split; [exact Hinh'|].
+    assert (Hg : grows s s').
+    { right. rewrite Hn'. split; [exact Hh'|]. split; [|exact Hp'].
+      intro Hh. rewrite Hh in G. cbn [andb guard_hit] in G. lia. }
+    split; [exact Hh'|]. split; [|split; [|split; [right; reflexivity|exact Hg]]].
+    + rewrite Hp'. apply in_or_app. right. left. reflexivity.
+    + exists [lmgt (now s)]. exact Hp'.
+Qed.
+
+(** TickNow: never panics in range, keeps the invariant; either a tick at this
+    edge / the next edge is pending, or the tick of this very instant is the
+    last one scheduled (pending or already handled — the C09 gap). *)
+Lemma tick_now_ok s : Inv s ->
+  exists s' o, tick_now f s = Some (s', o) /\ Inv s' /\
+               now s' = now s /\ inh s' = inh s /\
+               (exists ext, pend s' = pend s ++ ext) /\
+               (o = ODrop \/ o = OSched (lmge (now s))) /\ grows s s' /\
+               (In (lmge (now s)) (pend s') \/ In (lmgt (now s)) (pend s') \/
+                (has s' = true /\ next s' = now s /\ now s mod p = 0)).
+Proof.
+  intro HI. pose proof (inv_fit s HI) as Hfit.
+  destruct (lmge_spec p (now s) Hp1) as [Hm [Hge [_ _]]].
+  pose proof (lmge_le_lmgt (now s)) as Hlg.
+  unfold tick_now, tick_now_g.
+  destruct (has s && guard_hit GGe (next s) (now s)) eqn:G.
+  - apply andb_true_iff in G. destruct G as [Hh G]. cbn [guard_hit] in G.
+    exists s, ODrop.
+    split; [reflexivity|]. split; [exact HI|]. split; [reflexivity|]. split; [reflexivity|].
+    split; [exists []; rewrite app_nil_r; reflexivity|]. split; [left; reflexivity|].
+    split; [left; reflexivity|].
+    pose proof (inv_le s HI Hh) as Hle. pose proof (inv_mul s HI Hh) as Hmul.
+    destruct (N.eq_dec (next s) (now s)) as [E|E].
+    + right. right. rewrite <- E. auto.
+    + assert (Hlt : now s < next s) by lia.
+      pose proof (inv_in s HI Hh Hlt) as Hin.
+      pose proof (multiple_gt_ge_lmgt (now s) (next s) Hmul Hlt).
+      right. left. assert (E2 : next s = lmgt (now s)) by lia. rewrite <- E2. exact Hin.
+  - rewrite (this_tick_fit _ Hfit).
+    destruct (inv_sched s (lmge (now s)) HI Hm) as [s' [Hs [HI' [Hh' [Hn' [Hp' [Hnow' Hinh']]]]]]]; try lia.
+    { intro Hh. rewrite Hh in G. cbn [andb guard_hit] in G. lia. }
+    rewrite Hs. exists s', (OSched (lmge (now s))).
+    split; [reflexivity|]. split; [exact HI'|]. split; [exact Hnow'|]. split; [exact Hinh'|].
+    split; [exists [lmge (now s)]; exact Hp'|]. split; [right; reflexivity|].
+    split.
+    { right. rewrite Hn'. split; [exact Hh'|]. split; [|exact Hp'].
+      intro Hh. rewrite Hh in G. cbn [andb guard_hit] in G. lia. }
+    left. rewrite Hp'. apply in_or_app. right. left. reflexivity.
+Qed.
+
+Lemma do_call_ok k s : Inv s ->
+  exists s' o, do_call k f s = Some (s', o) /\ Inv s' /\
+               now s' = now s /\ inh s' = inh s /\
+               (exists ext, pend s' = pend s ++ ext) /\ grows s s'.
+Proof.
+  intro HI. destruct k; cbn [do_call].
+  - destruct (tick_now_ok s HI) as [s' [o [H1 [H2 [H3 [H4 [H5 [_ [H6 _]]]]]]]]].
+    exists s', o. auto 10.
+  - destruct (tick_later_ok s HI) as [s' [o [H1 [H2 [H3 [H4 [_ [_ [H5 [_ H6]]]]]]]]]].
+    exists s', o. auto 10.
+  - destruct (tick_later_ok s HI) as [s' [o [H1 [H2 [H3 [H4 [_ [_ [H5 [_ H6]]]]]]]]]].
+    exists s', o. auto 10.
+  - destruct (tick_later_ok s HI) as [s' [o [H1 [H2 [H3 [H4 [_ [_ [H5 [_ H6]]]]]]]]]].
+    exists s', o. auto 10.
+Qed.
+
+Lemma lb_grows L s s' : (has s = true /\ L <= next s /\ Forall (fun t => L < t) (pend s)) ->
+  grows s s' -> has s' = true /\ L <= next s' /\ Forall (fun t => L < t) (pend s').
+Proof.
+  intros [Hh [Hn Hall]] [->|[Hh' [Hlt Hpd]]]; [auto|].
+  specialize (Hlt Hh). split; [exact Hh'|]. split; [lia|].
+  rewrite Hpd. apply Forall_app. split; [exact Hall|constructor; [lia|constructor]].
+Qed.
+
+(** what a legal Pop does *)
+Lemma pop_ok s s' e : Inv s -> step f s Pop = Ok s' e ->
+  exists t r, pend s = t :: r /\ e = EPop t /\ inh s = false /\
+              s' = mk_st (has s) (next s) r t true.
+Proof.
+  intros HI H. cbn [step] in H.
+  destruct (inh s) eqn:Ei; [discriminate|].
+  destruct (pend s) as [|t r] eqn:Ep; [cbn in H; discriminate|].
+  pose proof (inv_sorted s HI) as Hs. rewrite Ep in Hs.
+  rewrite (sorted_head_min t r Hs) in H.
+  destruct (t <? now s); [discriminate|].
+  rewrite remove_first_head in H. inversion H; subst. eauto 10.
+Qed.
+
+Lemma inv_step s o s' e : Inv s -> step f s o = Ok s' e -> fits f s' = true -> Inv s'.
+Proof.
+  intros HI H Hfit. apply fits_spec in Hfit. destruct o as [t|k| |b].
+  - (* Adv *)
+    cbn [step] in H. destruct (inh s) eqn:Ei; [discriminate|].
+    destruct (t <? now s) eqn:Et; [discriminate|].
+    destruct (forallb (fun u => t <=? u) (pend s)) eqn:Ef; [|discriminate].
+    inversion H; subst. clear H. apply forallb_le_Forall in Ef.
+    constructor; cbn [has next pend now inh] in *.
+    + exact Hfit.
+    + pose proof (inv_pend s HI) as Hpd. rewrite Forall_forall in *.
+      intros x Hx. specialize (Hpd x Hx). specialize (Ef x Hx). split; [lia|tauto].
+    + exact (inv_sorted s HI).
+    + exact (inv_nohas s HI).
+    + exact (inv_mul s HI).
+    + intro Hh. pose proof (inv_le s HI Hh). pose proof (lmgt_mono (now s) t). lia.
+    + exact (inv_bound s HI).
+    + intros Hh Hlt. apply (inv_in s HI Hh). lia.
+    + discriminate.
+  - (* Call *)
+    cbn [step] in H. destruct (do_call_ok k s HI) as [s1 [o [H1 [H2 _]]]].
+    rewrite H1 in H. inversion H; subst. exact H2.
+  - (* Pop *)
+    destruct (pop_ok s s' e HI H) as [t [r [Ep [-> [Ei ->]]]]].
+    cbn [now] in Hfit.
+    pose proof (inv_pend s HI) as Hpd. pose proof (inv_sorted s HI) as Hs.
+    pose proof (inv_bound s HI) as Hb. rewrite Ep in *.
+    inversion Hpd as [|? ? [Ht1 Ht2] Hpd']; subst.
+    inversion Hs as [|? ? Hs' Hall]; subst.
+    inversion Hb as [|? ? Hb1 Hb']; subst.
+    assert (Hh : has s = true).
+    { destruct (has s) eqn:Eh; [reflexivity|]. pose proof (inv_nohas s HI Eh). congruence. }
+    constructor; cbn [has next pend now inh].
+    + exact Hfit.
+    + rewrite Forall_forall in *. intros x Hx. specialize (Hpd' x Hx). specialize (Hall x Hx).
+      split; [lia|tauto].
+    + exact Hs'.
+    + congruence.
+    + exact (inv_mul s HI).
+    + intros _. pose proof (inv_le s HI Hh). pose proof (lmgt_mono (now s) t). lia.
+    + exact Hb'.
+    + intros _ Hlt. pose proof (inv_in s HI Hh) as Hin. rewrite Ep in Hin.
+      destruct Hin as [E|Hin]; [lia|lia|exact Hin].
+    + intros _. repeat split; auto.
+  - (* Ret *)
+    cbn [step] in H. destruct (inh s) eqn:Ei; cbn [negb] in H; [|discriminate].
+    destruct b.
+    + destruct (tick_later_ok s HI) as [s1 [o [H1 [H2 [H3 [H4 _]]]]]].
+      rewrite H1 in H. inversion H; subst. clear H.
+      destruct H2. constructor; cbn [has next pend now inh] in *; auto; try discriminate.
+    + inversion H; subst. clear H.
+      destruct HI. constructor; cbn [has next pend now inh] in *; auto; try discriminate.
+Qed.
+
+(** ------------------------------------------------------------------ *)
+(** exec: inversion and invariants along a run *)
+
+Lemma exec_cons s o r s' evs : exec f s (o :: r) = Some (s', evs) ->
+  exists s1 e es, step f s o = Ok s1 e /\ fits f s1 = true /\
+                  exec f s1 r = Some (s', es) /\ evs = e :: es.
+Proof.
+  cbn [exec]. destruct (step f s o) as [s1 e| |]; try discriminate.
+  destruct (fits f s1) eqn:Ef; [|discriminate].
+  destruct (exec f s1 r) as [[s2 es]|] eqn:Ee; [|discriminate].
+  intro H. inversion H; subst. exists s1, e, es. repeat split; auto.
+Qed.
+
+Lemma exec_app s a b s' evs : exec f s (a ++ b) = Some (s', evs) ->
+  exists s1 e1 e2, exec f s a = Some (s1, e1) /\ exec f s1 b = Some (s', e2) /\ evs = e1 ++ e2.
+Proof.
+  revert s evs. induction a as [|o a IH]; intros s evs H.
+  - exists s, [], evs. auto.
+  - rewrite <- app_comm_cons in H.
+    destruct (exec_cons _ _ _ _ _ H) as [s1 [e [es [H1 [H2 [H3 ->]]]]]].
+    destruct (IH _ _ H3) as [s2 [e1 [e2 [H4 [H5 ->]]]]].
+    exists s2, (e :: e1), e2. cbn [exec]. rewrite H1, H2, H4. auto.
+Qed.
+
+Lemma inv_exec s ops s' evs : Inv s -> exec f s ops = Some (s', evs) -> Inv s'.
+Proof.
+  revert s evs. induction ops as [|o r IH]; intros s evs HI H.
+  - inversion H; subst. exact HI.
+  - destruct (exec_cons _ _ _ _ _ H) as [s1 [e [es [H1 [H2 [H3 ->]]]]]].
+    eapply IH; [|exact H3]. eapply inv_step; eauto.
+Qed.
+
+(** [L] was dispatched earlier: everything pending or yet to be scheduled is later *)
+Definition LB (L : N) (s : st) : Prop :=
+  has s = true /\ L <= next s /\ Forall (fun t => L < t) (pend s).
+
+Lemma lb_step L s o s' e : Inv s -> LB L s -> step f s o = Ok s' e ->
+  LB L s' /\ (forall t, e = EPop t -> L < t).
+Proof.
+  intros HI HL H. pose proof HL as [Hh [Hn Hall]]. destruct o as [t|k| |b].
+  - cbn [step] in H. destruct (inh s); [discriminate|]. destruct (t <? now s); [discriminate|].
+    destruct (forallb _ _); [|discriminate]. inversion H; subst.
+    split; [exact HL|intros; discriminate].
+  - cbn [step] in H. destruct (do_call_ok k s HI) as [s1 [o [H1 [H2 [_ [_ [_ Hg]]]]]]].
+    rewrite H1 in H. inversion H; subst. split; [|intros; discriminate].
+    exact (lb_grows L s s' HL Hg).
+  - destruct (pop_ok s s' e HI H) as [t [r [Ep [-> [Ei ->]]]]].
+    rewrite Ep in Hall. inversion Hall; subst.
+    split; [repeat split; auto|]. intros t' E. inversion E; subst. assumption.
+  - cbn [step] in H. destruct (negb (inh s)); [discriminate|]. destruct b.
+    + destruct (tick_later_ok s HI) as [s1 [o [H1 [H2 [_ [_ [_ [_ [_ [_ Hg]]]]]]]]]].
+      rewrite H1 in H. inversion H; subst. split; [|intros; discriminate].
+      exact (lb_grows L s s1 HL Hg).
+    + inversion H; subst. split; [exact HL|intros; discriminate].
+Qed.
+
+Lemma lb_after_pop s s' t : Inv s -> step f s Pop = Ok s' (EPop t) -> LB t s'.
+Proof.
+  intros HI H. destruct (pop_ok s s' _ HI H) as [t' [r [Ep [E [Ei ->]]]]].
+  inversion E; subst t'. unfold LB. cbn [has next pend].
+  pose proof (inv_sorted s HI) as Hs. pose proof (inv_bound s HI) as Hb. rewrite Ep in *.
+  inversion Hs; subst. inversion Hb; subst.
+  repeat split; auto.
+  destruct (has s) eqn:Eh; [reflexivity|]. pose proof (inv_nohas s HI Eh). congruence.
+Qed.
+
+Lemma step_epop s o s' t : step f s o = Ok s' (EPop t) -> o = Pop.
+Proof.
+  destruct o as [t0|k| |b]; cbn [step]; intro H; [ | |reflexivity| ].
+  - destruct (inh s); [discriminate|]. destruct (t0 <? now s); [discriminate|].
+    destruct (forallb _ _); discriminate.
+  - destruct (do_call k f s) as [[s1 o1]|]; discriminate.
+  - destruct (negb (inh s)); [discriminate|].
+    destruct b; [destruct (tick_later f s) as [[s1 o1]|]; discriminate|discriminate].
+Qed.
+
+(** once per instant: the dispatched tick times of a run are strictly increasing *)
+Lemma pops_increasing ops : forall s s' evs, Inv s -> exec f s ops = Some (s', evs) ->
+  StronglySorted N.lt (pops evs) /\ (forall L, LB L s -> Forall (fun t => L < t) (pops evs)).
+Proof.
+  induction ops as [|o r IH]; intros s s' evs HI H.
+  - inversion H; subst. cbn. split; [constructor|intros; constructor].
+  - destruct (exec_cons _ _ _ _ _ H) as [s1 [e [es [H1 [H2 [H3 ->]]]]]].
+    pose proof (inv_step _ _ _ _ HI H1 H2) as HI1.
+    destruct (IH _ _ _ HI1 H3) as [IHs IHl].
+    destruct e as [t|k t o'|t|b o']; cbn [pops];
+      try (split; [exact IHs|intros L HL; apply IHl; exact (proj1 (lb_step _ _ _ _ _ HI HL H1))]).
+    assert (o = Pop) by (eapply step_epop; exact H1).
+    subst o. pose proof (lb_after_pop _ _ _ HI H1) as HLt.
+    split.
+    + constructor; [exact IHs|apply IHl; exact HLt].
+    + intros L HL. destruct (lb_step _ _ _ _ _ HI HL H1) as [HL1 Hlt].
+      constructor; [apply Hlt; reflexivity|apply IHl; exact HL1].
+Qed.
+
+(** on edge: every dispatched tick time is a multiple of the period, and is not before the start *)
+Lemma pops_on_edge ops : forall s s' evs, Inv s -> exec f s ops = Some (s', evs) ->
+  Forall (fun t => t mod p = 0 /\ now s <= t) (pops evs) /\ now s <= now s'.
+Proof.
+  induction ops as [|o r IH]; intros s s' evs HI H.
+  - inversion H; subst. cbn. split; [constructor|lia].
+  - destruct (exec_cons _ _ _ _ _ H) as [s1 [e [es [H1 [H2 [H3 ->]]]]]].
+    pose proof (inv_step _ _ _ _ HI H1 H2) as HI1.
+    destruct (IH _ _ _ HI1 H3) as [IHa IHb].
+    assert (Hnow : now s <= now s1 /\ (forall t, e = EPop t -> t mod p = 0 /\ now s <= t)).
+    { destruct o as [t|k| |b].
+      - cbn [step] in H1. destruct (inh s); [discriminate|]. destruct (t <? now s) eqn:E; [discriminate|].
+        destruct (forallb _ _); [|discriminate]. inversion H1; subst. cbn. split; [lia|intros; discriminate].
+      - cbn [step] in H1. destruct (do_call_ok k s HI) as [s2 [o [Hc [_ [Hn _]]]]].
+        rewrite Hc in H1. inversion H1; subst. split; [lia|intros; discriminate].
+      - destruct (pop_ok s s1 e HI H1) as [t [r' [Ep [-> [Ei ->]]]]].
+        pose proof (inv_pend s HI) as Hpd. rewrite Ep in Hpd. inversion Hpd; subst.
+        cbn [now]. split; [tauto|]. intros t' E. inversion E; subst. tauto.
+      - cbn [step] in H1. destruct (negb (inh s)); [discriminate|]. destruct b.
+        + destruct (tick_later_ok s HI) as [s2 [o [Hc [_ [Hn _]]]]].
+          rewrite Hc in H1. inversion H1; subst. cbn [now]. split; [lia|intros; discriminate].
+        + inversion H1; subst. cbn [now]. split; [lia|intros; discriminate]. }
+    destruct Hnow as [Hn Hpop]. split; [|lia].
+    assert (Hrest : Forall (fun t => t mod p = 0 /\ now s <= t) (pops es)).
+    { eapply Forall_impl; [|exact IHa]. cbn. intros a [A B]. split; [exact A|lia]. }
+    destruct e; cbn [pops]; try exact Hrest.
+    constructor; [apply Hpop; reflexivity|exact Hrest].
+Qed.
+
+(** a pending tick is never skipped: it is dispatched, or it is still pending
+    and the engine time has not passed it *)
+Lemma pending_not_skipped u ops : forall s s' evs, Inv s -> In u (pend s) ->
+  exec f s ops = Some (s', evs) ->
+  In u (pops evs) \/ (In u (pend s') /\ now s' <= u).
+Proof.
+  induction ops as [|o r IH]; intros s s' evs HI Hin H.
+  - inversion H; subst. right. split; [exact Hin|].
+    pose proof (inv_pend s' HI) as Hpd. rewrite Forall_forall in Hpd. apply (Hpd u Hin).
+  - destruct (exec_cons _ _ _ _ _ H) as [s1 [e [es [H1 [H2 [H3 ->]]]]]].
+    pose proof (inv_step _ _ _ _ HI H1 H2) as HI1.
+    destruct o as [t|k| |b].
+    + cbn [step] in H1. destruct (inh s); [discriminate|]. destruct (t <? now s); [discriminate|].
+      destruct (forallb _ _); [|discriminate]. inversion H1; subst. cbn [pops].
+      eapply IH; eauto.
+    + cbn [step] in H1. destruct (do_call_ok k s HI) as [s2 [o [Hc [_ [_ [_ [[ext Hext] _]]]]]]].
+      rewrite Hc in H1. inversion H1; subst. cbn [pops].
+      eapply IH; eauto. rewrite Hext. apply in_or_app. left. exact Hin.
+    + destruct (pop_ok s s1 e HI H1) as [t [r' [Ep [-> [Ei ->]]]]].
+      cbn [pops]. rewrite Ep in Hin. destruct Hin as [->|Hin]; [left; left; reflexivity|].
+      destruct (IH _ _ _ HI1 Hin H3) as [A|A]; [left; right; exact A|right; exact A].
+    + cbn [step] in H1. destruct (negb (inh s)); [discriminate|]. destruct b.
+      * destruct (tick_later_ok s HI) as [s2 [o [Hc [_ [_ [_ [_ [_ [[ext Hext] _]]]]]]]]].
+        rewrite Hc in H1. inversion H1; subst. cbn [pops].
+        eapply IH; eauto. cbn [pend]. rewrite Hext. apply in_or_app. left. exact Hin.
+      * inversion H1; subst. cbn [pops]. eapply IH; eauto.
+Qed.
+
+(** the head of the pending list is the next tick to be dispatched *)
+Lemma head_pops_first u ops : forall s s' evs rest, Inv s -> pend s = u :: rest ->
+  exec f s ops = Some (s', evs) ->
+  match pops evs with
+  | [] => (exists rest', pend s' = u :: rest') /\ now s' <= u
+  | v :: _ => v = u
+  end.
+Proof.
+  induction ops as [|o r IH]; intros s s' evs rest HI Hpd H.
+  - inversion H; subst. cbn [pops]. split; [eauto|].
+    pose proof (inv_pend s' HI) as Hp'. rewrite Hpd in Hp'. inversion Hp'; subst. tauto.
+  - destruct (exec_cons _ _ _ _ _ H) as [s1 [e [es [H1 [H2 [H3 ->]]]]]].
+    pose proof (inv_step _ _ _ _ HI H1 H2) as HI1.
+    destruct o as [t|k| |b].
+    + cbn [step] in H1. destruct (inh s); [discriminate|]. destruct (t <? now s); [discriminate|].
+      destruct (forallb _ _); [|discriminate]. inversion H1; subst. cbn [pops].
+      eapply IH; eauto.
+    + cbn [step] in H1. destruct (do_call_ok k s HI) as [s2 [o [Hc [_ [_ [_ [[ext Hext] _]]]]]]].
+      rewrite Hc in H1. inversion H1; subst. cbn [pops].
+      eapply IH; eauto. rewrite Hext, Hpd. rewrite <- app_comm_cons. reflexivity.
+    + destruct (pop_ok s s1 e HI H1) as [t [r' [Ep [-> [Ei ->]]]]].
+      cbn [pops]. congruence.
+    + cbn [step] in H1. destruct (negb (inh s)); [discriminate|]. destruct b.
+      * destruct (tick_later_ok s HI) as [s2 [o [Hc [_ [_ [_ [_ [_ [[ext Hext] _]]]]]]]]].
+        rewrite Hc in H1. inversion H1; subst. cbn [pops].
+        eapply IH; eauto. cbn [pend]. rewrite Hext, Hpd. rewrite <- app_comm_cons. reflexivity.
+      * inversion H1; subst. cbn [pops]. eapply IH; eauto.
+Qed.
+
+(** after a tick that made progress: the next edge is the head of the pending list *)
+Lemma ret_true_head s s' e : Inv s -> step f s (Ret true) = Ok s' e -> fits f s' = true ->
+  exists rest, pend s' = lmgt (now s) :: rest /\ now s' = now s.
+Proof.
+  intros HI H Hfit. pose proof (inv_step _ _ _ _ HI H Hfit) as HI'.
+  cbn [step] in H. destruct (inh s) eqn:Ei; cbn [negb] in H; [|discriminate].
+  destruct (tick_later_ok s HI) as [s1 [o [H1 [HI1 [Hn [Hi [_ [Hin [[ext Hext] _]]]]]]]]].
+  rewrite H1 in H. inversion H; subst. clear H. cbn [pend now] in *.
+  destruct (inv_inh s1 HI1) as [_ [_ Hall]]; [congruence|].
+  destruct (sorted_in_lower_is_head (pend s1) (lmgt (now s)) (inv_sorted s1 HI1) Hin) as [rest Hr].
+  - pose proof (inv_pend s1 HI1) as Hpd. rewrite Forall_forall in *.
+    intros x Hx. specialize (Hall x Hx). specialize (Hpd x Hx).
+    apply multiple_gt_ge_lmgt; [tauto|lia].
+  - exists rest. auto.
+Qed.
+
+Lemma exec_one s o s' evs : exec f s [o] = Some (s', evs) ->
+  exists e, step f s o = Ok s' e /\ fits f s' = true /\ evs = [e].
+Proof.
+  intro H. destruct (exec_cons _ _ _ _ _ H) as [s1 [e [es [H1 [H2 [H3 ->]]]]]].
+  inversion H3; subst. eauto.
+Qed.
+
+(** C12, third clause *)
+Lemma progress_reticks ops1 s1 evs1 ops2 s2 evs2 :
+  exec f init (ops1 ++ [Ret true]) = Some (s1, evs1) ->
+  exec f s1 ops2 = Some (s2, evs2) ->
+  match pops evs2 with
+  | [] => In (lmgt (now s1)) (pend s2) /\ now s2 <= lmgt (now s1)
+  | v :: _ => v = lmgt (now s1)
+  end.
+Proof.
+  intros H1 H2. destruct (exec_app _ _ _ _ _ H1) as [s0 [e1 [e2 [Ha [Hb _]]]]].
+  pose proof (inv_exec _ _ _ _ inv_init Ha) as HI0.
+  destruct (exec_one _ _ _ _ Hb) as [e [Hs [Hfit _]]].
+  destruct (ret_true_head _ _ _ HI0 Hs Hfit) as [rest [Hpd Hnow]].
+  pose proof (inv_step _ _ _ _ HI0 Hs Hfit) as HI1.
+  pose proof (head_pops_first _ _ _ _ _ _ HI1 Hpd H2) as Hh. rewrite Hnow.
+  destruct (pops evs2); [|exact Hh].
+  destruct Hh as [[rest' Hr] Hle]. split; [rewrite Hr; left; reflexivity|exact Hle].
+Qed.
+
+Definition later_call (k : callk) : Prop := k <> KTickNow.
+
+(** C12, fourth clause *)
+Lemma notify_later_edge k ops1 s1 evs1 ops2 s2 evs2 : later_call k ->
+  exec f init (ops1 ++ [Call k]) = Some (s1, evs1) ->
+  exec f s1 ops2 = Some (s2, evs2) ->
+  let u := lmgt (now s1) in
+  (In u (pops evs2) \/ (In u (pend s2) /\ now s2 <= u)) /\
+  Forall (fun v => v = now s1 \/ u <= v) (pops evs2).
+Proof.
+  intros Hk H1 H2 u. destruct (exec_app _ _ _ _ _ H1) as [s0 [e1 [e2 [Ha [Hb _]]]]].
+  pose proof (inv_exec _ _ _ _ inv_init Ha) as HI0.
+  destruct (exec_one _ _ _ _ Hb) as [e [Hs [Hfit _]]].
+  pose proof (inv_step _ _ _ _ HI0 Hs Hfit) as HI1.
+  assert (Hin : In (lmgt (now s1)) (pend s1)).
+  { cbn [step] in Hs.
+    destruct (tick_later_ok s0 HI0) as [s' [o [Ht [_ [Hn [_ [_ [Hin _]]]]]]]].
+    assert (Hc : do_call k f s0 = tick_later f s0) by (destruct k; [exfalso; apply Hk|..]; reflexivity).
+    rewrite Hc, Ht in Hs. inversion Hs; subst. rewrite Hn. exact Hin. }
+  split; [exact (pending_not_skipped _ _ _ _ _ HI1 Hin H2)|].
+  destruct (pops_on_edge _ _ _ _ HI1 H2) as [Hall _].
+  eapply Forall_impl; [|exact Hall]. cbn. intros v [Hm Hge].
+  destruct (N.eq_dec v (now s1)) as [->|Hne]; [left; reflexivity|right].
+  apply multiple_gt_ge_lmgt; [exact Hm|lia].
+Qed.
+
+(** TickNow: where the requested tick ends up *)
+Lemma tick_now_where ops1 s1 evs1 :
+  exec f init (ops1 ++ [Call KTickNow]) = Some (s1, evs1) ->
+  In (lmge (now s1)) (pend s1) \/ In (lmgt (now s1)) (pend s1) \/
+  (has s1 = true /\ next s1 = now s1 /\ now s1 mod p = 0).
+Proof.
+  intro H1. destruct (exec_app _ _ _ _ _ H1) as [s0 [e1 [e2 [Ha [Hb _]]]]].
+  pose proof (inv_exec _ _ _ _ inv_init Ha) as HI0.
+  destruct (exec_one _ _ _ _ Hb) as [e [Hs [Hfit _]]].
+  cbn [step do_call] in Hs.
+  destruct (tick_now_ok s0 HI0) as [s' [o [Ht [_ [Hn [_ [_ [_ [_ Hw]]]]]]]]].
+  rewrite Ht in Hs. inversion Hs; subst. rewrite Hn. exact Hw.
+Qed.
+
+(** inside the representable range no call and no Tick() return panics *)
+Lemma no_panic ops s evs o : exec f init ops = Some (s, evs) -> step f s o <> Panic.
+Proof.
+  intros H. pose proof (inv_exec _ _ _ _ inv_init H) as HI. destruct o as [t|k| |b]; cbn [step].
+  - destruct (inh s); [discriminate|]. destruct (t <? now s); [discriminate|].
+    destruct (forallb _ _); discriminate.
+  - destruct (do_call_ok k s HI) as [s' [o [Hc _]]]. rewrite Hc. discriminate.
+  - destruct (inh s); [discriminate|]. destruct (list_min (pend s)); [|discriminate].
+    destruct (_ <? _); discriminate.
+  - destruct (negb (inh s)); [discriminate|]. destruct b; [|discriminate].
+    destruct (tick_later_ok s HI) as [s' [o [Hc _]]]. rewrite Hc. discriminate.
+Qed.
+
+End WithFreq.
